@@ -23,7 +23,7 @@ NAN = float("nan")
 ZFAULTS = [("none", "none", "deadfirst"), ("none", "bid", "deadfirst"), ("dead", "none", "deadfirst")]
 
 
-def inject(b, c, fault, t):
+def inject(b, c, fault, t, requote=True):
     book = b.exchange[c]
     bid, ask = book.bid_price, book.ask_price
     if fault == "bid":
@@ -35,7 +35,8 @@ def inject(b, c, fault, t):
     elif fault == "dead":
         b.exchange.process_EventContractDiscontinued(EventContractDiscontinued(t, c))
         # a dead book must stay dead under later quotes
-        b.exchange.process_EventNBBO(EventNBBO(t, c, bid, ask))
+        if requote:
+            b.exchange.process_EventNBBO(EventNBBO(t, c, bid, ask))
 
 
 def has(x):
@@ -149,9 +150,26 @@ def probe_state(sb, ref, cs, fee, faults):
             msgs.append("holdings_weights raised %r with all needed quotes present" % (ex,))
     out.append(("weights", msgs, val_impossible))
     # ---- rebalances
-    for (measure, alloc), margin in itertools.product(TARGETS, (0.0, 0.015625)):
+    variants = [(ta, mg, False) for ta, mg in itertools.product(TARGETS, (0.0, 0.015625))]
+    if any(f != "none" for f in faults):
+        # the request object is first PREVIEWED (make_trades) while every quote is still there, the quotes are lost afterwards
+        # and the same object is then executed
+        variants += [(ta, 0.0, True) for ta in TARGETS]
+    for (measure, alloc), margin, preview in variants:
         msgs = []
-        b = fresh()
+        rb_preview = None
+        if preview:
+            b = unsnap(sb)
+            rb_preview = Rebalancing(contracts=allc, allocation=list(alloc), measure=measure, time=T0 + timedelta(days=1), margin=margin)
+            try:
+                rb_preview.make_trades(b)
+            except Exception:
+                pass
+            for c, f in zip(cs, faults):
+                # the loss carries the SAME timestamp as the quotes it replaces, and a discontinuation is not followed by any quote
+                inject(b, c, f, T0, requote=False)
+        else:
+            b = fresh()
         pre_pos = positions(b)
         pre_len = len(b.track_record)
         pre_view = tr_view(b.track_record)
@@ -193,7 +211,7 @@ def probe_state(sb, ref, cs, fee, faults):
             # with a no-trade threshold an implementation may size the imbalance from the side that IS quoted and find it below the
             # threshold; only a contract without any quote cannot be sized at all
             must, may = False, True
-        rb = Rebalancing(contracts=allc, allocation=list(alloc), measure=measure, time=T0 + timedelta(days=1), margin=margin)
+        rb = rb_preview or Rebalancing(contracts=allc, allocation=list(alloc), measure=measure, time=T0 + timedelta(days=1), margin=margin)
         raised = None
         try:
             b.rebalance(rb)
@@ -238,7 +256,7 @@ def probe_state(sb, ref, cs, fee, faults):
                 pass
             except Exception as ex:
                 msgs.append("valuation after a successful rebalance raised %r" % (ex,))
-        out.append(("rebalance:%s:%s%s" % (measure, alloc, ":thr" if margin else ""), msgs, must or raised is not None))
+        out.append(("rebalance:%s:%s%s%s" % (measure, alloc, ":thr" if margin else "", ":preview" if preview else ""), msgs, must or raised is not None))
     return out
 
 
